@@ -203,7 +203,9 @@ def s1_programs(src, length, fault_kinds, max_fault_requests):
         if src.twin and o["call"] == "begin":
             ok = not ok
         src.check(ok, f"call {o['i']} {o['call']} in state {o['pre']}: expected '{o['want']}', got '{o['got']}'", **info)
-        if o["want"] == "raises" and o["got"] == "raises" and not o["new_faults"]:
+        # (after a retriable fault the library's retries of an *earlier* call arrive whenever their back-off ends: the
+        #  requests seen during a later, refused call cannot be attributed to it then)
+        if o["want"] == "raises" and o["got"] == "raises" and not o["new_faults"] and not any(f[3] == "retriable" for f in faults.log):
             src.check(o["requests"] == 0 and not o["appended"],
                       f"refused call {o['call']} in state {o['pre']} still reached the cluster ({o['requests']} request(s))", **info)
         if o["pre"] == "FATAL":
